@@ -125,6 +125,7 @@ def run_check(prop, tier, seed, jobs=None):
     import glob
     for f in glob.glob(os.path.join(os.environ.get("VF_REPLAY_DIR") or os.path.join(VERIF, "replay"), prop + "-*.json")):
         os.unlink(f)
+    os.environ.setdefault("VF_CLEAR_LIMIT", "60000" if tier == "quick" else "400000")     # term budget of the zero test
     L = importlib.import_module("lemmas." + prop)
     cfgs = list(L.configs(tier))
     canaries = list(getattr(L, "canaries", lambda t: [])(tier))
